@@ -3,12 +3,25 @@ import os, subprocess, tempfile, random
 import hidlib
 
 # ---------------------------------------------------------------------------------------- lexer
-def py_lex(text):
-    """token stream of the real lexer in the format of `hidmodel lex`"""
+def py_lex_file(text, tail=''):
+    """the same text read from a file (the command line's path into the lexer), with the given bytes appended"""
+    import tempfile, os
+    from hidc.lexer import SourceCode
+    with tempfile.NamedTemporaryFile('wb', suffix='.hid', delete=False) as f:
+        f.write(text.encode('utf-8') + tail.encode('utf-8'))
+        name = f.name
+    try:
+        return py_lex(None, SourceCode.from_file(name))
+    finally:
+        os.unlink(name)
+
+
+def py_lex(text, source=None):
+    """token stream of the real lexer in the format of `hidmodel lex` (of `source`, a SourceCode, if given)"""
     from hidc.lexer import lex, SourceCode, tokens
     from hidc.errors import LexerError
     out = []
-    gen = lex(SourceCode.from_string(text))
+    gen = lex(source if source is not None else SourceCode.from_string(text))
     try:
         while True:
             try:
